@@ -758,6 +758,8 @@ def free_case(draw):
 
 
 def plan(tier, seed):
+    import pkgcore.util.thread_pool  # noqa: F401  (warm import: forked task workers inherit it)
+
     tasks = []
     if tier == "quick":
         tasks.append({"task": "dfs", "configs": [[2, 2, "sized", "gen"]], "cap": 150})
@@ -818,9 +820,9 @@ def run_task(ctx, task, **kw):
     helper = Helper()
     try:
         if task == "gated":
-            core.hyp_run(ctx, gated_case(), lambda c: run_one(ctx, helper, c), kw["examples"], chunk=25)
+            core.hyp_run(ctx, gated_case(), lambda c: run_one(ctx, helper, c), kw["examples"], chunk=15)
         elif task == "free":
-            core.hyp_run(ctx, free_case(), lambda c: run_one(ctx, helper, c), kw["examples"], chunk=25, seed_salt=3)
+            core.hyp_run(ctx, free_case(), lambda c: run_one(ctx, helper, c), kw["examples"], chunk=15, seed_salt=3)
         elif task == "dfs":
             for threads, nitems, iterable, functor in kw["configs"]:
                 runs, complete = dfs(ctx, helper, threads, nitems, iterable, functor, kw["cap"])
